@@ -27,7 +27,7 @@ var mockFS = fs.MockFS(map[string]string{}, fs.MockUnix, "/")
 
 func runC19(seed uint64, n int, tier string, outDir string) []*Stats {
 	r := NewRng(seed)
-	cf := NewCoqFile("From V Require Import Common.Base C18.Pieces C18.Harness C19.Metafile C19.Json C19.Layout C19.Doc C19.Harness.")
+	cf := NewCoqFile("From V Require Import Common.Base C18.Pieces C18.Harness C19.Metafile C19.Json C19.Layout C19.Doc C19.Scan C19.Harness.")
 	st := NewStats("c19", seed)
 
 	docLimit = 8
@@ -39,6 +39,7 @@ func runC19(seed uint64, n int, tier string, outDir string) []*Stats {
 	corpusNames(st)
 	targetedMetafile(st)
 	oddNameBuilds(st)
+	dualPackageBuilds(r, 10+n/25, cf, st)
 	metaCases(r, n/2, cf, st)
 	outsCases(r, n/2, cf, st)
 	quoteCases(r, n/2, cf, st)
